@@ -75,16 +75,18 @@ var voteMenu = [][]sig{
 // Cfg is one configuration (one search).
 type Cfg struct {
 	Name     string  `json:"name"`
-	Vals     []int   `json:"validators"`                      // validators the alphabet acts on
-	PreAct   []int   `json:"pre_activated"`                   // activated in the base state (at its block time)
-	PrePrice []int   `json:"pre_priced,omitempty"`            // of those: submitted a price for every current feed in the base state
-	MaxIv    int64   `json:"max_interval,omitempty"`          // feeds MaxInterval; 0 = 12 s
-	Penalty  int64   `json:"penalty_seconds,omitempty"`       // oracle InactivePenaltyDuration; 0 = 10 s
-	BaseMs   int64   `json:"base_offset_ms,omitempty"`        // sub-second part of the base state's block time (last base block is 3 s + this)
-	DtsMs    []int64 `json:"block_dt_milliseconds,omitempty"` // additional block events "blockms:N"
-	InitVote int     `json:"initial_vote"`                    // index into voteMenu, current at the base state
-	Votes    []int   `json:"votes"`                           // vote events offered
-	Phase    int     `json:"phase"`                           // extra 3-second blocks after the base update block (height 4)
+	Vals     []int   `json:"validators"`                            // validators the alphabet acts on
+	PreAct   []int   `json:"pre_activated"`                         // activated in the base state (at its block time)
+	PrePrice []int   `json:"pre_priced,omitempty"`                  // of those: submitted a price for every current feed in the base state
+	MaxIv    int64   `json:"max_interval,omitempty"`                // feeds MaxInterval; 0 = 12 s
+	UpdEvery int64   `json:"update_interval_blocks,omitempty"`      // feeds CurrentFeedsUpdateInterval; 0 = 4 blocks
+	TsOffs   []int64 `json:"price_msg_timestamp_offsets,omitempty"` // events "pricets:v:off": all feeds, message timestamp = block time + off s
+	Penalty  int64   `json:"penalty_seconds,omitempty"`             // oracle InactivePenaltyDuration; 0 = 10 s
+	BaseMs   int64   `json:"base_offset_ms,omitempty"`              // sub-second part of the base state's block time (last base block is 3 s + this)
+	DtsMs    []int64 `json:"block_dt_milliseconds,omitempty"`       // additional block events "blockms:N"
+	InitVote int     `json:"initial_vote"`                          // index into voteMenu, current at the base state
+	Votes    []int   `json:"votes"`                                 // vote events offered
+	Phase    int     `json:"phase"`                                 // extra 3-second blocks after the base update block (height 4)
 	Exp      uint64  `json:"expiration_blocks"`
 	MaxReq   int     `json:"max_requests"`
 	MaxVote  int     `json:"max_votes"`
@@ -194,6 +196,13 @@ func (s *spec) pen() int64 {
 	return penalty * sec
 }
 
+func (s *spec) upd() int64 {
+	if s.cfg.UpdEvery > 0 {
+		return s.cfg.UpdEvery
+	}
+	return updateEvery
+}
+
 func (s *spec) maxIv() int64 {
 	if s.cfg.MaxIv > 0 {
 		return s.cfg.MaxIv
@@ -266,7 +275,7 @@ func (s *spec) Build(w *engine.World) (sdk.Context, engine.Model) {
 	fp.MinInterval = minInterval
 	fp.MaxInterval = s.maxIv()
 	fp.PowerStepThreshold = powerStep
-	fp.CurrentFeedsUpdateInterval = updateEvery
+	fp.CurrentFeedsUpdateInterval = s.upd()
 	fp.CooldownTime = cooldown
 	fp.MaxCurrentFeeds = 3
 	if err := w.App.FeedsKeeper.SetParams(ctx, fp); err != nil {
@@ -298,7 +307,7 @@ func (s *spec) Build(w *engine.World) (sdk.Context, engine.Model) {
 	// blocks 2,3,4 end (4 is an update block), then cfg.Phase more; 3 s each
 	for i := 0; i < 3+s.cfg.Phase; i++ {
 		h, now := ctx.BlockHeight(), ctx.BlockTime().UnixNano()
-		if h%updateEvery == 0 {
+		if h%s.upd() == 0 {
 			m.Feeds, m.LastUpdT, m.LastUpdH = s.feedsFromVote(m.Vote), now, h
 		}
 		dt := 3 * time.Second
@@ -401,6 +410,9 @@ func (s *spec) Enabled(w *engine.World, ctx sdk.Context, mm engine.Model, depth 
 				evs = append(evs, fmt.Sprintf("price:%d:all", i))
 				if s.cfg.PriceOne && len(m.Feeds) > 1 {
 					evs = append(evs, fmt.Sprintf("price:%d:one", i))
+				}
+				for _, off := range s.cfg.TsOffs {
+					evs = append(evs, fmt.Sprintf("pricets:%d:%d", i, off))
 				}
 			}
 		}
@@ -544,6 +556,32 @@ func (s *spec) Step(w *engine.World, ctx sdk.Context, mm engine.Model, ev string
 				m.V[i].Prices[sp.SignalID] = pRec{T: now, H: h}
 			}
 		}
+	case "pricets":
+		// a submission for every current feed whose message timestamp differs from the block time (a
+		// feeder clock that lags or leads).  Whatever the message says, a price accepted in this block
+		// was reported now: the reference measures its age from this block's time and height.
+		i, _ := strconv.Atoi(parts[1])
+		off, _ := strconv.ParseInt(parts[2], 10, 64)
+		var sps []feedstypes.SignalPrice
+		for _, f := range m.Feeds {
+			sps = append(sps, feedstypes.NewSignalPrice(feedstypes.SIGNAL_PRICE_STATUS_AVAILABLE, f.ID, 1000))
+		}
+		res := w.Tx(ctx, 0, feedstypes.NewMsgSubmitSignalPrices(bandtesting.Validators[i].ValAddress.String(), now/sec+off, sps))
+		st.Outcome = "pricets:" + res.ErrName()
+		switch {
+		case off < -60 || off > 60:
+			st.Saw("pricets:beyond-allowed-discrepancy:" + res.ErrName())
+		case off < 0:
+			st.Saw("pricets:lagging-clock:" + res.ErrName())
+		case off > 0:
+			st.Saw("pricets:leading-clock:" + res.ErrName())
+		}
+		m.NPrice++
+		if res.OK() {
+			for _, sp := range sps {
+				m.V[i].Prices[sp.SignalID] = pRec{T: now, H: h}
+			}
+		}
 	case "vote":
 		k, _ := strconv.Atoi(parts[1])
 		res := w.Tx(ctx, 0, voteMsg(k))
@@ -607,7 +645,7 @@ func (s *spec) block(w *engine.World, ctx sdk.Context, m *model, ev string, dt t
 	// statement nor the README fixes whether the misses of an update block are judged against the
 	// outgoing or the incoming list, so a miss under the outgoing list (and its stamps) also counts.
 	var outgoingMiss [nVals]bool
-	if h%updateEvery == 0 {
+	if h%s.upd() == 0 {
 		for i := range m.V {
 			for _, f := range m.Feeds {
 				if m.V[i].Active && len(m.feedClauses(f, &m.V[i], now, h)) == 0 {
@@ -823,6 +861,11 @@ func configs(quick bool) []Cfg {
 			// inside and after [floor(D)+penalty, D+penalty) and exactly at D+penalty
 			{Name: "penalty-subsecond", Vals: []int{0}, PreAct: []int{0}, InitVote: 0, Phase: 0, Exp: 1, Penalty: 2, BaseMs: 900, MaxReq: 1,
 				Dts: []int64{1, 2}, DtsMs: []int64{500}, Depth: 7},
+			// message timestamps that differ from the block time by -55, -1, +1, +55 s (legal) and -61, +61 s
+			// (beyond the 60 s allowance); feed A/6 s, no feed-list update during the search (interval 16
+			// blocks, base two blocks after the update at height 16)
+			{Name: "feeds-msgtime", Vals: []int{0}, PreAct: []int{0}, InitVote: 2, Phase: 13, UpdEvery: 16, Exp: 2, MaxPrice: 1,
+				TsOffs: []int64{-55, -1, 1, 55, -61, 61}, Dts: []int64{0, 1, 6}, Depth: 6},
 			{Name: "both", Vals: []int{0, 1}, PreAct: []int{1}, InitVote: 3, Votes: []int{4}, Phase: 1, Exp: 2, MaxReq: 1, MaxVote: 1, MaxPrice: 2, PriceOne: true, Dts: []int64{1, 6, 12}, Depth: 6},
 		}
 	}
@@ -857,6 +900,10 @@ func configs(quick bool) []Cfg {
 			Dts: []int64{0, 1, 2}, DtsMs: []int64{100, 500}, Depth: 8},
 		Cfg{Name: "penalty-subsecond-1s", Vals: []int{0, 1}, PreAct: []int{0}, InitVote: 0, Phase: 1, Exp: 2, Penalty: 1, BaseMs: 300, MaxReq: 1,
 			Dts: []int64{1}, DtsMs: []int64{300, 700}, Depth: 8},
+		Cfg{Name: "feeds-msgtime-A12", Vals: []int{0}, PreAct: []int{0}, InitVote: 1, Phase: 13, UpdEvery: 16, Exp: 2, MaxPrice: 2,
+			TsOffs: []int64{-60, -55, -1, 1, 55, 60, -61, 61}, Dts: []int64{0, 1, 3, 12}, Depth: 8},
+		Cfg{Name: "feeds-msgtime-A6", Vals: []int{0}, InitVote: 2, Phase: 13, UpdEvery: 16, Exp: 2, MaxPrice: 2,
+			TsOffs: []int64{-60, -55, -1, 1, 55, 60, -61, 61}, Dts: []int64{0, 1, 6}, Depth: 8},
 		Cfg{Name: "feeds-subsecond", Vals: []int{0}, PreAct: []int{0}, InitVote: 2, Votes: []int{1}, Phase: 1, Exp: 2, Penalty: 3, BaseMs: 900, MaxVote: 1, MaxPrice: 2,
 			Dts: []int64{0, 3, 6}, DtsMs: []int64{500}, Depth: 8},
 	)
@@ -877,12 +924,13 @@ func init() {
 	engine.Register(&engine.Check{
 		ID: "C15",
 		Run: func(r *engine.Run) {
-			r.Bound = "3 bonded validators (1-2 acted on); events Activate(v), RequestData(ask = all active, min 1), ReportData(id,v), SubmitSignalPrices(v, all | first current feed), Vote from a 5-entry menu (feed list {}, {A/12s}, {A/6s}, {A/12s,B/6s}, {B/12s}; plus a configuration with max interval 24 s whose vote swaps the power ranking of two feeds [B/8s,A/12s] -> [A/8s,B/12s] after prices for both were submitted) taking effect at the next update block, Block(dh=1, dt in {0,1,3,6,10,12} s; configurations with block times off the whole second: base at x.9 s, dt in {1 s, 2 s, 500 ms}, penalty 2 s); grace 6 s, intervals 6/12 s, penalty 10 s, feed update every 4 blocks, expiration 1-3 blocks; base states 0-3 blocks after an update, validators fresh or pre-activated; depth 6-7 (quick) / 8-9 (thorough)"
+			r.Bound = "3 bonded validators (1-2 acted on); events Activate(v), RequestData(ask = all active, min 1), ReportData(id,v), SubmitSignalPrices(v, all | first current feed; one configuration with message timestamps block time -55/-1/+1/+55 s and +-61 s), Vote from a 5-entry menu (feed list {}, {A/12s}, {A/6s}, {A/12s,B/6s}, {B/12s}; plus a configuration with max interval 24 s whose vote swaps the power ranking of two feeds [B/8s,A/12s] -> [A/8s,B/12s] after prices for both were submitted) taking effect at the next update block, Block(dh=1, dt in {0,1,3,6,10,12} s; configurations with block times off the whole second: base at x.9 s, dt in {1 s, 2 s, 500 ms}, penalty 2 s); grace 6 s, intervals 6/12 s, penalty 10 s, feed update every 4 blocks, expiration 1-3 blocks; base states 0-3 blocks after an update, validators fresh or pre-activated; depth 6-7 (quick) / 8-9 (thorough)"
 			r.Assumptions = []string{
 				"committee of a request (RequestedValidators) and acceptance of reports / price submissions are taken as given (C09, C01, C06); the reference records a report or a price iff the transaction succeeded",
 				"the statement is one-directional: only 'deactivated => genuine miss', 'activate accepted => inactive and penalty elapsed', 'active => activated by message' and 'status changes only by MsgActivate or in a block end' are asserted; a genuine miss that does not deactivate, or a permitted MsgActivate that is refused, is only recorded (labels genuine-miss-not-deactivated:*, act:rejected-although-permitted:*)",
 				"'active before the request was made' is read on block timestamps as since < request time (equal timestamps do not count as before); 'grace period is over' as now > start+grace; 'no sufficiently recent price' as now > price time + interval; block-height fallback = grace/3 resp. interval/3 blocks (x/feeds/types/constant.go MaxGuaranteeBlockTime)",
 				"at an update block a miss may be judged against the outgoing or the incoming feed list (the order is not fixed by the statement)",
+				"a price is as old as the block that accepted it (time and height of that block), whatever timestamp the message carries; AllowableBlockTimeDiscrepancy stays at its default 60 s and the refusal beyond it is recorded, not asserted",
 				"a price submitted for a signal is forgotten by the reference when that signal leaves the current feed list (the lenient reading; the chain keeps it until the validator's next submission)",
 				"the reference keeps every time (activation, deactivation, request, price, update) in full nanosecond precision; the chain's whole-second stamps (feed-list update, price timestamps, request time) are never later than those, which only makes the chain more lenient than the reference",
 				"block times are whole seconds except in the *-subsecond configurations; dh = 1 for every block; Tx seam = ValidateBasic + message-router handler in a cache context (ante chain not executed)",
@@ -921,11 +969,13 @@ func required(quick bool) []string {
 		"act:ok:after-penalty", "act:ok:exactly-at-penalty-end",
 		// ... and refused when only the whole unix seconds, not the full time, have elapsed (sub-second block times)
 		"act:rejected:less-than-a-second-before-penalty-end",
+		// price messages stamped by a lagging / leading clock: accepted within the allowance, refused beyond it
+		"pricets:lagging-clock:ok", "pricets:leading-clock:ok", "pricets:beyond-allowed-discrepancy:feeds/6",
 		// both kinds of genuine miss, and every protecting clause observed alone (boundary cases)
 		"deactivated:oracle", "deactivated:feeds", "deactivated:feeds:no-price", "deactivated:feeds:stale-price",
 		"spared:oracle:reported", "spared:oracle:active-since-not-before-request",
 		"spared:feeds:only-activation-grace", "spared:feeds:only-update-grace-time", "spared:feeds:only-update-grace-blocks",
-		"spared:feeds:only-price-blocks",
+		"spared:feeds:only-price-blocks", "spared:feeds:only-price-time",
 		"block:update", "block:update:list-changed", "req:ok", "rep:ok", "price:all:ok", "vote:ok",
 	}
 }
